@@ -144,6 +144,10 @@ def iterate_concrete(eng, v):
         return list(v)
     if isinstance(v, Obj) and "__items__" in v.fields:
         return list(v.fields["__items__"].items)
+    if isinstance(v, Obj):  # instance of a repository class that defines __iter__ (e.g. `for n in tree`)
+        r = eng.find_method(v.cls, "__iter__")
+        if r is not None and r[0] == "func" and eng.func_from_py(r[1], r[2]) is not None:
+            return iterate_concrete(eng, eng.call(eng.getattr_(v, "__iter__"), [], {}))
     if isinstance(v, PList):
         if v.items is not None:
             return list(v.items)
